@@ -119,6 +119,9 @@ class Interp:
         self.depth = depth
         self.res = Resolver(proj)
         self.args = args or {}
+        # values for names/attribute chains that the state does not define
+        # (rule-supplied abstract samples, e.g. the fields of a parse result)
+        self.oracle: dict = {}
 
     # ----------------------------------------------------------- lookups
     def _field_type(self, chain: str) -> str | None:
@@ -199,6 +202,8 @@ class Interp:
                 return TOP
             if d in st:
                 return st[d]
+            if d in self.oracle:
+                return self.oracle[d]
             ev = self._enum_value(d)
             if ev is not None:
                 return ev
@@ -427,6 +432,11 @@ class Interp:
             return StrV(recv.kind, recv.no_cr or 13 in dropped, recv.no_lf or 10 in dropped, None)
         if name in ("format", "format_map", "expandtabs", "center", "ljust", "rjust", "zfill"):
             return StrV(recv.kind)
+        if name in ("startswith", "endswith") and isinstance(recv.exact, str) and args and isinstance(args[0], StrV) and isinstance(args[0].exact, str):
+            return BoolV(getattr(recv.exact, name)(args[0].exact))
+        if name == "startswith" and recv.prefix is not None and args and isinstance(args[0], StrV) and isinstance(args[0].exact, str):
+            if recv.prefix.startswith(args[0].exact):
+                return BoolV(True)
         if name in ("startswith", "endswith", "isdigit", "isprintable", "isascii"):
             return BoolV(None)
         return None
@@ -488,6 +498,12 @@ class Interp:
                     r = False
                 if r is not None and isinstance(op, ast.NotIn):
                     r = not r
+            elif isinstance(op, (ast.Eq, ast.NotEq)) and isinstance(a, StrV) and isinstance(b, StrV) and a.exact is not None and b.exact is not None:
+                r = a.exact == b.exact
+                if isinstance(op, ast.NotEq):
+                    r = not r
+            elif isinstance(op, (ast.Eq, ast.NotEq)) and ((isinstance(a, NoneV) and isinstance(b, StrV)) or (isinstance(b, NoneV) and isinstance(a, StrV))):
+                r = isinstance(op, ast.NotEq)
             elif isinstance(op, (ast.Is, ast.IsNot)) and isinstance(b, NoneV):
                 if isinstance(a, NoneV):
                     r = True
@@ -715,7 +731,7 @@ class Interp:
             st[d] = v
 
     # ---------------------------------------------------------- paths
-    def run_paths(self, g: Graph, watch, init: dict | None = None, max_paths: int = 20000):
+    def run_paths(self, g: Graph, watch, init: dict | None = None, max_paths: int = 20000, follow=normal_only):
         """Walk all feasible normal paths from entry to exit.  ``watch(node)``
         returns a list of expressions to evaluate when the node is reached
         (before executing it).  Yields (path, records) with records =
@@ -738,7 +754,7 @@ class Interp:
             return (interp.exec(node, st), recs)
 
         base = dict(init or {})
-        return walk_paths(g, g.entry.id, (base, ()), step, follow=normal_only, max_paths=max_paths)
+        return walk_paths(g, g.entry.id, (base, ()), step, follow=follow, max_paths=max_paths)
 
 
 @dataclass(frozen=True)
